@@ -1311,7 +1311,79 @@ def gen_env_cases(rng, p_random=0.4):
         yield dict(kind='env', seed=rng.randrange(2**31), actions=acts, reads=reads, **src)
 
 
+def custom_env(cu):
+    """an environment assembled by hand around a *user-supplied* reset function (it returns a fresh copy of
+    a given state: borderless rooms, the agent on an edge, any heading) - what a user of the library may
+    do, and what reaches poses no built-in layout contains (e.g. a view that is exactly the whole grid)"""
+    import functools
+    from gym_gridverse.envs import observation_functions as of
+    from gym_gridverse.envs import reward_functions as rf
+    from gym_gridverse.envs import terminating_functions as tf
+    from gym_gridverse.envs import transition_functions as trf
+    from gym_gridverse.envs.gridworld import GridWorld
+    from gym_gridverse.geometry import Shape
+    from gym_gridverse.grid_object import Color, Hidden, grid_object_registry
+    from gym_gridverse.spaces import ActionSpace, ObservationSpace, StateSpace
+
+    s0 = cu['state']
+
+    def reset(*, rng=None):
+        return state_from_str(s0)
+
+    y0, y1, x0, x1 = cu['area']
+    area = Area((y0, y1), (x0, x1))
+    st = state_from_str(s0)
+    h, w = st.grid.shape.as_tuple
+    kinds = [k for k in grid_object_registry if k.__name__ not in ('NoneGridObject', 'Hidden')]
+    chain = functools.partial(trf.chain, transition_functions=[trf.transition_function_registry[n] for n in cu['trans']])
+    rewards = [functools.partial(rf.living_reward, reward=-0.5), functools.partial(rf.reach_exit, reward_on=5.0, reward_off=0.0),
+               functools.partial(rf.bump_into_wall, reward=-1.0)]
+    return GridWorld(
+        StateSpace(Shape(h, w), kinds, list(Color)),
+        ActionSpace(list(ACTIONS)),
+        ObservationSpace(Shape(area.height, area.width), kinds + [Hidden], list(Color)),
+        reset,
+        chain,
+        functools.partial(of.observation_function_registry[cu['obs']], area=area),
+        functools.partial(rf.reduce_sum, reward_functions=rewards),
+        tf.reach_exit,
+    )
+
+
+def gen_custom_env_case(rng):
+    """a user-reset environment; half of the time the view is exactly the whole grid"""
+    for _ in range(50):
+        s = gen.valid_random_state(rng, max_h=5, max_w=5, min_h=2, min_w=3, p_floor=0.6, p_wall_border=0.1, helds=['N', 'N', 'K1', 'K4'])
+        h, w = s.grid.shape.as_tuple
+        if w % 2 == 0:
+            continue
+        if rng.random() < 0.5:
+            from gym_gridverse.grid_object import Floor
+
+            y, x = rng.randrange(h), (w - 1) // 2
+            s.agent.position = Position(y, x)
+            s.agent.orientation = O.F if rng.random() < 0.7 else rng.choice(ORIENTS)
+            if s.grid[s.agent.position].blocks_movement:
+                s.grid[s.agent.position] = Floor()
+            area = [-y, h - 1 - y, -x, x]
+        else:
+            hw = rng.randint(0, 2)
+            area = [-rng.randint(0, 4), rng.choice([0, 0, 1, 2]), -hw, hw]
+        if area[1] == 0:
+            obs = rng.choice(['fully_transparent', 'partially_occluded', 'raytracing'])
+        else:
+            obs = rng.choice(['fully_transparent', 'raytracing'])
+        trans = rng.choice([['move_agent', 'turn_agent'], ['turn_agent', 'move_agent', 'actuate_door', 'pickndrop'], ['move_agent', 'turn_agent', 'move_obstacles']])
+        n = rng.randint(3, 25)
+        return dict(kind='env', seed=rng.randrange(2**31), actions=[rng.randrange(8) for _ in range(n)],
+                    reads=[rng.choice(['', 'o', 'oo', 's', 'os', 'o', 'so']) for _ in range(n)],
+                    custom={'state': enc_state(s), 'area': area, 'obs': obs, 'trans': trans})
+    return None
+
+
 def env_of_case(c):
+    if 'custom' in c:
+        return custom_env(c['custom'])
     return build_env(c.get('file'), c.get('config'))
 
 
@@ -1323,7 +1395,12 @@ class C04(Oracle):
     prop = 'C04'
 
     def gen(self, rng):
-        return gen_env_cases(rng)
+        g = gen_env_cases(rng)
+        k = 0
+        while True:
+            k += 1
+            c = gen_custom_env_case(rng) if k % 3 == 0 else None
+            yield c if c is not None else next(g)
 
     def check(self, c):
         import numpy as np
@@ -1355,16 +1432,24 @@ class C04(Oracle):
                 if ch == 'o':
                     before = env._rng.bit_generator.state
                     had = env._observation is not None
+                    st_before = enc_state(env.state)
                     o1 = env.observation
                     mid = env._rng.bit_generator.state
                     o2 = env.observation
+                    if enc_state(env.state) != st_before:
+                        out.append(V('stateful/reading-the-observation-changes-the-state', f'{c.get("file", "user-reset environment")} step {k}: {st_before} -> {enc_state(env.state)}'))
+                        return out
                     if o2 is not o1:
                         out.append(V('stateful/observation-recomputed', f'step {k}'))
                     if env._rng.bit_generator.state != mid or (had and mid != before):
                         out.append(V('stateful/observation-read-consumes-randomness', f'step {k}'))
                     # freshness: it is the observation of the current state
                     ref._rng.bit_generator.state = before if not had else ref._rng.bit_generator.state
+                    s_enc = enc_state(s)
                     exp = ref.functional_observation(s) if not had else None
+                    if enc_state(s) != s_enc:
+                        out.append(V('functional/observation-changes-the-state', f'{c.get("file", "user-reset environment")} step {k}'))
+                        return out
                     if exp is not None and not obs_eq(o1, exp):
                         out.append(V('stateful/stale-or-wrong-observation', f'{c.get("file")} step {k}'))
                     if exp is not None:
@@ -1375,8 +1460,19 @@ class C04(Oracle):
                 elif ch == 'r':
                     env.reset()
                     s = ref.functional_reset()
-            r, d = env.step(a)
-            s2, r2, d2 = ref.functional_step(s, a)
+            err1 = err2 = None
+            try:
+                r, d = env.step(a)
+            except Exception as e:
+                err1 = e
+            try:
+                s2, r2, d2 = ref.functional_step(s, a)
+            except Exception as e:
+                err2 = e
+            if err1 is not None or err2 is not None:
+                if type(err1) is not type(err2):
+                    out.append(V('stateful/step-raises-differently-from-functional', f'{c.get("file", "user-reset environment")} step {k}: stateful {type(err1).__name__}, functional {type(err2).__name__} ({err1 or err2})'))
+                return out
             if not obs_eq(env.state, s2) or r != r2 or d != d2:
                 out.append(V('stateful/step-differs-from-functional', f'{c.get("file")} step {k}: {r} {d} vs {r2} {d2}'))
                 return out
